@@ -196,7 +196,7 @@ theorem notif_wire (n : Notif) (h : n.data.length ≤ 4075) :
   rw [encodeNotifBody_eq, prependHeader_eq_frame _ _ (by simp; omega)]
   rfl
 
-theorem truncated_no_notification (s : Bytes) (h : s.length < 19) : readAll s = ([], .other) := by
+theorem truncated_no_notification (s : Bytes) (h : s.length < 19) : readAll s = ([], .eof) := by
   unfold readAll readLoop readOne
   simp [Gen.headerLength, h]
 
@@ -223,7 +223,7 @@ theorem readOne_header (h rest : Bytes) (hl : h.length = 19) :
       if h.take 16 ≠ Spec.marker then .error (.notif ⟨1, 1, []⟩ true)
       else if Spec.n16 (h.getD 16 0) (h.getD 17 0) < 19 ∨ Spec.n16 (h.getD 16 0) (h.getD 17 0) > 4096 then
         .error (.notif ⟨1, 2, []⟩ true)
-      else if rest.length < Spec.n16 (h.getD 16 0) (h.getD 17 0) - 19 then .error .other
+      else if rest.length < Spec.n16 (h.getD 16 0) (h.getD 17 0) - 19 then .error .eof
       else
         match messageFromBytes (rest.take (Spec.n16 (h.getD 16 0) (h.getD 17 0) - 19)) (h.getD 18 0) with
         | .ok m => .ok (m, rest.drop (Spec.n16 (h.getD 16 0) (h.getD 17 0) - 19))
